@@ -28,18 +28,36 @@ fn strings_ok(v: &Value) -> bool {
     }
 }
 
-/// every byte string of length <= 14 starting with a JSONB header byte: the binary decoder returns Ok or Err (no panic),
-/// and strings/keys of a returned value are well-formed UTF-8
+/// scalar documents: header 0x20000000, an ARBITRARY entry word and up to 3 payload bytes, every truncation:
+/// parse_jsonb returns Ok or Err (no panic); a returned string is valid UTF-8
 #[kani::proof]
-#[kani::unwind(8)]
+#[kani::unwind(6)]
 #[kani::stub(crate::parser::parse_value, no_text)]
-fn kb_decode_any_bytes14() {
-    let raw: [u8; 14] = kani::any();
-    let len: usize = kani::any();
-    kani::assume(len <= 14);
-    // counts are kept small so that the loops are bounded by the unwind value (larger counts need more bytes than present
-    // and fail at the first missing entry word)
-    let r = parse_jsonb(&raw[..len]);
+fn kb_decode_scalar11() {
+    let mut raw = [0u8; 11];
+    raw[0] = 0x20;
+    let mut i = 4;
+    while i < 11 { raw[i] = kani::any(); i += 1; }
+    let cut: usize = kani::any();
+    kani::assume(cut <= 11);
+    let r = parse_jsonb(&raw[..cut]);
+    if let Ok(v) = &r {
+        assert!(strings_ok(v));
+    }
+}
+
+/// arrays with an ARBITRARY count in the header byte 3 (0..=255), two arbitrary entry words and 3 payload bytes, every truncation
+#[kani::proof]
+#[kani::unwind(6)]
+#[kani::stub(crate::parser::parse_value, no_text)]
+fn kb_decode_array15() {
+    let mut raw = [0u8; 15];
+    raw[0] = 0x80;
+    let mut i = 3;
+    while i < 15 { raw[i] = kani::any(); i += 1; }
+    let cut: usize = kani::any();
+    kani::assume(cut <= 15);
+    let r = parse_jsonb(&raw[..cut]);
     if let Ok(v) = &r {
         assert!(strings_ok(v));
     }
@@ -74,14 +92,14 @@ fn kb_from_slice_text_not_binary() {
 
 use crate::verif_kani_spec::*;
 
-/// C01 round trip on flat documents: decode(doc) is Ok and re-encoding the decoded value gives the identical bytes
-/// (documents: arrays of exactly 2 scalars from the menu; every proper prefix is rejected)
+/// C01 round trip on flat documents of concrete shape [2-byte scalar, Float64, 1-byte string, null/bool]:
+/// decode(doc) is Ok, re-encoding the decoded value gives the identical bytes, every proper prefix is rejected
 #[kani::proof]
-#[kani::unwind(34)]
+#[kani::unwind(40)]
 #[kani::stub(crate::parser::parse_value, no_text)]
-fn kb_roundtrip_array2() {
-    let a = [any_sc(), any_sc()];
-    let doc = layout_array(&[a[0].it, a[1].it]);
+fn kb_roundtrip_array4() {
+    let a = [sc_w2(), sc_float9(), sc_str1(), sc_w0()];
+    let doc = layout_array(&[a[0].it, a[1].it, a[2].it, a[3].it]);
     let r = parse_jsonb(doc.as_slice());
     assert!(r.is_ok());
     let v = r.unwrap();
@@ -90,4 +108,19 @@ fn kb_roundtrip_array2() {
     let cut: usize = kani::any();
     kani::assume(cut < doc.n);
     assert!(parse_jsonb(&doc.b[..cut]).is_err());
+}
+
+/// the same for objects {k1: 2-byte scalar, k2: Float64} with sorted distinct keys of widths 1 and 2
+#[kani::proof]
+#[kani::unwind(40)]
+#[kani::stub(crate::parser::parse_value, no_text)]
+fn kb_roundtrip_object2() {
+    let k = [key1(), key2()];
+    kani::assume(key_lt(&k[0], &k[1]));
+    let v = [sc_w2(), sc_float9()];
+    let doc = layout_object(&k, &[v[0].it, v[1].it]);
+    let r = parse_jsonb(doc.as_slice());
+    assert!(r.is_ok());
+    let back = r.unwrap().to_vec();
+    assert!(doc.eq_slice(back.as_slice()));
 }
